@@ -1,7 +1,7 @@
 """C02 - exactly one entry per documentable command, in source order (explicit-state search)."""
 import functools
 
-from .. import common, cmakegen, pipeline, refmodel, rstobs, statespace
+from .. import common, cmakegen, modsearch, pipeline, refmodel, rstobs, statespace
 
 ID = "C02"
 RULE = ("explicit-state BFS over event histories of the abstract-module alphabet (mc/statespace.py); a state is the "
@@ -114,6 +114,36 @@ def shape_jobs():
     return jobs
 
 
+def bystander_jobs():
+    """a declaration (test, section, member, constructor) whose implementing definition carries a doccomment of its own,
+    followed by by-standers.  The documented implementing definition itself is outside C02's domain (see assumptions);
+    the commands AFTER it are not: each still gets exactly one entry, in order."""
+    cl = {"k": "close"}
+    decls = [[{"k": "ct_add_test", "doc": d, "impldoc": ["Impl doc."]}, cl] for d in (1, 0)]
+    decls += [[{"k": "ct_add_test", "doc": 1}, {"k": "ct_add_section", "doc": d, "impldoc": ["Impl doc."]}, cl, cl] for d in (1, 0)]
+    decls += [[{"k": "cpp_class", "doc": 1}, {"k": m, "doc": d, "impldoc": ["Impl doc."], "types": ["int"], "params": ["a"]}, cl, cl]
+              for d in (1, 0) for m in ("cpp_member", "cpp_constructor")]
+    tails = [[{"k": "function", "doc": 0, "params": ["p"]}, cl, {"k": "macro", "doc": 0}, cl, {"k": "function", "doc": 1}],
+             [{"k": "macro", "doc": 0, "params": ["p"]}, cl, {"k": "function", "doc": 0}],
+             [{"k": "set", "doc": 1}, {"k": "function", "doc": 0, "params": ["p", "q"]}, cl, {"k": "option", "doc": 1}],
+             [{"k": "if", "doc": 0}, {"k": "function", "doc": 0}, cl, cl, {"k": "macro", "doc": 1}]]
+    return [[dict(e) for e in d + t] for d in decls for t in tails]
+
+
+def sweep_bystanders(h, case):
+    text, r = modsearch.run_module(h, None, case)
+    exp = refmodel.expected(h, None)
+    if r["page"] is None:
+        msgs = [f"error: pipeline failed on a well-formed module: {r['error']}"]
+    else:
+        obs = [rstobs.abstract_entry(b) for b in rstobs.Page(r["page"]).entries()]
+        # the entry of the documented implementing definition itself (signature "${name}(...)") is not judged here
+        obs = [o for o in obs if "${" not in str(o.get("sig", ""))]
+        msgs = [m for m in refmodel.compare(exp, obs) if m.split(":")[0] in ("entries", "signature", "order")]
+    dg = common.digest([h, msgs])
+    return {"viol": msgs, "obs": dg, "nt": dg, "cls": ("bystanders " + msgs[0].split(":")[0]) if msgs else None}
+
+
 def all_histories(n, maxnest):
     level = [[]]
     out = []
@@ -139,6 +169,8 @@ def run(ctx):
               space="no-dedup sweep (with and without a trailing dangling doccomment)")
     ctx.sweep(functools.partial(sweep_one, case=cases[2]), shape_jobs(), space="argument shapes x positions")
     ctx.sweep(functools.partial(sweep_one, case=cases[2]), extra_jobs(), space="odd comment characters; declarations naming an outer class")
+    ctx.sweep(functools.partial(sweep_bystanders, case=cases[0]), bystander_jobs(),
+              space="by-standers after a declaration whose implementing definition is documented (judged on the by-standers)")
     ctx.assumptions += ["documented implementing definitions are outside the domain (claimed by two clauses of the statement)",
                         "generic command names are compared in lower case (C04 requires case-independent output)",
                         "wording of notes/warnings is matched by the keywords the statement names"]
@@ -150,6 +182,8 @@ def replay(case):
         case = case[0]
     events = case if isinstance(case, list) else case["events"]
     msgs = []
+    if any("impldoc" in ev for ev in events):
+        return sweep_bystanders(events, "lower")["viol"]
     for cs in ("lower", "upper", "mixed"):
         m, _, _ = check_history(events, None, cs, trailing=False)
         msgs += m
